@@ -59,6 +59,16 @@ def explore(ctx):
     except Exception as e:
         ctx.broke('table-evaluation', 'driver skeleton', repr(e)[:500])
     try:
+        from gen import clangdelta as _cd
+        for (c_, t_, w_, rf, er) in _cd.counter_validity_table():
+            want = (c_ or t_) and not w_
+            if rf != want or er != want:
+                ctx.violation('check-counter-validity', f'Transformation::checkCounterValidity with counter {"beyond" if c_ else "within"} / to-counter {"beyond" if t_ else "within"} the instances, warn flag '
+                              f'{"on" if w_ else "off"}: returns {"false" if rf else "true"}, error {"set" if er else "not set"} (expected {"false, set" if want else "true, not set"})',
+                              {'function': 'Transformation::checkCounterValidity', 'counter_oob': c_, 'to_counter_oob': t_, 'warn': w_})
+    except Exception:
+        pass        # a translator failure is reported by the generator stage
+    try:
         sensitivity(ctx)
     except Exception as e:      # evidence only
         ctx.extra['extractor_sensitivity'] = {'error': repr(e)[:500]}
